@@ -239,11 +239,13 @@ def envelope_check(c, out, tol=1e-6):
                 tm, tM = gp.target_arrays(gs, n)
                 for m in range(c["E"]):
                     if gs.get("critical"):
-                        # met in every solution from its priority on
+                        # met in every solution from its priority on (up to the slack the user grants every
+                        # hard constraint through the constraint_relaxation option, in units of the nominal)
+                        slack = gp.fnum(c.get("options", {}).get("constraint_relaxation", 0)) * gp.fnum(gs.get("nominal", 1))
                         for jj in range(i, len(snaps)):
                             f = c02.fsteps(gs, snaps[jj]["results"][m], n)
                             for k, (fv, a, b) in enumerate(zip(f, tm, tM)):
-                                if (math.isfinite(a) and fv < a - tol * (1 + abs(a))) or (math.isfinite(b) and fv > b + tol * (1 + abs(b))):
+                                if (math.isfinite(a) and fv < a - slack - tol * (1 + abs(a))) or (math.isfinite(b) and fv > b + slack + tol * (1 + abs(b))):
                                     bad.append({"critical_goal": gs, "member": m, "step": k, "value": fv,
                                                 "target": [a, b], "solution_of_priority": snaps[jj]["priority"]})
                         continue
